@@ -343,6 +343,19 @@ def same_result(a, b):
         return True
 
 
+def refresh_in_place(dst, src, counter):
+    """Copy the content of src into the arrays of dst (same objects); everything that cannot be refreshed is taken from src."""
+    if isinstance(dst, np.ndarray) and isinstance(src, np.ndarray) and dst.shape == src.shape and dst.dtype == src.dtype and dst.flags.writeable:
+        np.copyto(dst, src)
+        counter[0] += 1
+        return dst
+    if isinstance(dst, (list, tuple)) and isinstance(src, (list, tuple)) and len(dst) == len(src):
+        return type(dst)(refresh_in_place(d, s_, counter) for d, s_ in zip(dst, src))
+    if isinstance(dst, dict) and isinstance(src, dict) and dst.keys() == src.keys():
+        return {k: refresh_in_place(dst[k], src[k], counter) for k in dst}
+    return src
+
+
 def scribble(o):
     """Overwrite every writeable ndarray inside a result (in place); returns how many were overwritten."""
     n = 0
@@ -420,6 +433,26 @@ def one_call_body(ctx, case):
             r4 = quiet(call, name, fn, a4, k4)
             ctx.require(same_result(keep, r4), "%s: after the caller overwrote the array it got back, an equal call returns a different result (returned array is shared hidden state)" % name)
             ctx.classes["result_scribble_checked"] += 1
+        # the same argument OBJECTS refreshed in place with other content (a frame buffer, a running reference, a pupil that
+        # gets a spider drawn into it) must give what fresh arrays with that content give: nothing may be remembered by identity
+        if variant != "readonly":
+            a5, k5 = builder(A(seed, variant))
+            a6, k6 = builder(A(seed + 7919, variant))
+            try:
+                np.random.seed(seed % (2**32))
+                want = quiet(call, name, fn, *copy.deepcopy((a6, k6)))
+            except Exception:
+                want = None                                      # the other content is not a valid input for this function
+            if want is not None:
+                np.random.seed(seed % (2**32))
+                quiet(call, name, fn, a5, k5)                    # the call that could remember its arguments
+                n_ref = [0]
+                a5r, k5r = refresh_in_place(a5, a6, n_ref), refresh_in_place(k5, k6, n_ref)
+                if n_ref[0]:
+                    np.random.seed(seed % (2**32))
+                    got = quiet(call, name, fn, a5r, k5r)
+                    ctx.require(same_result(got, want), "%s: called again with the same argument objects after the caller refreshed their content in place, it does not return what fresh arrays with that content give (something is remembered by object identity)" % name)
+                    ctx.classes["arguments_refreshed_in_place"] += 1
     finally:
         np.random.set_state(st_np)
         random.setstate(st_py)
